@@ -278,6 +278,17 @@ def rule_cancel_always_cancels(ctx):
 
 
 
+
+def rule_default_subscriber_cannot_fail(ctx):
+    """(shared C01.o)  The completing element is handed to the subscriber before the stream is released; the library's
+    own DefaultSubscriber must not raise there by itself (a no-op default call-back of the wrong arity): the release
+    would be skipped, and since the handler already knows the stream has ended a later cancel() cannot repair it
+    (rules/c01.py)."""
+    from .c01 import rule_default_subscriber
+    rule_default_subscriber(ctx)
+
+
+
 def _emits(m, h, p, cname):
     return any(c == cname and m.emit_class(h, c, cm) for c, cm, _ in m.emitted(p))
 
@@ -476,4 +487,4 @@ def rule_reactions(ctx):
     c01f(ctx)
 
 
-RULES = [('C10.a', rule_a), ('C10.b', rule_b), ('C10.c', rule_c), ('C05.a', rule_order), ('C03.c', rule_d), ('C10.d', rule_e), ('C10.a', rule_no_subscriber), ('C06.e', rule_small_publishers), ('C01.h', rule_adapter_cancellation), ('C05.b', rule_queue_only_drained_by_the_sender), ('C01.f', rule_reactions), ('C13.j', rule_release_needs_terminal), ('C10.e', rule_refused_request_is_released), ('C09.a', rule_cancel_always_cancels)]
+RULES = [('C10.a', rule_a), ('C10.b', rule_b), ('C10.c', rule_c), ('C05.a', rule_order), ('C03.c', rule_d), ('C10.d', rule_e), ('C10.a', rule_no_subscriber), ('C06.e', rule_small_publishers), ('C01.h', rule_adapter_cancellation), ('C05.b', rule_queue_only_drained_by_the_sender), ('C01.f', rule_reactions), ('C13.j', rule_release_needs_terminal), ('C10.e', rule_refused_request_is_released), ('C09.a', rule_cancel_always_cancels), ('C01.o', rule_default_subscriber_cannot_fail)]
